@@ -14,7 +14,7 @@ inductive Rx (L : Type) where
   | alt (r s : Rx L)
   | rep (r : Rx L) (lo : Nat) (hi : Option Nat)     -- r{lo,hi}; `none` = unbounded
   | shuffle (r s : Rx L)                             -- interleaving (xs:all, open content)
-  deriving Repr, Inhabited
+  deriving Repr, Inhabited, DecidableEq
 
 namespace Rx
 variable {L σ : Type}
